@@ -104,7 +104,7 @@ Ready(r) ==
 Quiet(r) ==
   /\ r.ev = "quiet"
   /\ "prog" \in DOMAIN s
-  /\ IsTasks(s.prog) /\ ~s.inpoll
+  /\ IsTasks(s.prog) /\ (~s.inpoll \/ s.ph = "ended")
   /\ BranchEvents(s) = {}
   /\ (s.sinceWake /\ s.ph = "step" => r.woken)
   /\ UNCHANGED <<s, thr, caller>>
